@@ -41,6 +41,7 @@ type effEngine struct {
 	roots       map[*ssa.Function]bool
 	paramShared map[*ssa.Parameter]string // parameter -> reason it is shared
 	retShared   map[*ssa.Function]string
+	retSharedAt map[*ssa.Function]map[int]string // per result index
 	memo        map[ssa.Value]int
 	memoWhy     map[ssa.Value]string
 	active      map[ssa.Value]bool
@@ -59,7 +60,7 @@ type effVerdict struct {
 }
 
 func newEffEngine(p *Program, scope map[*ssa.Function]bool, roots map[*ssa.Function]bool) *effEngine {
-	e := &effEngine{p: p, scope: scope, roots: roots, paramShared: map[*ssa.Parameter]string{}, retShared: map[*ssa.Function]string{}}
+	e := &effEngine{p: p, scope: scope, roots: roots, paramShared: map[*ssa.Parameter]string{}, retShared: map[*ssa.Function]string{}, retSharedAt: map[*ssa.Function]map[int]string{}}
 	// Parameters of roots (called from outside with shared objects) are shared.
 	for fn := range roots {
 		for _, par := range fn.Params {
@@ -81,18 +82,27 @@ func newEffEngine(p *Program, scope map[*ssa.Function]bool, roots map[*ssa.Funct
 		e.active = map[ssa.Value]bool{}
 		for _, fn := range fns {
 			// return summary
-			if _, done := e.retShared[fn]; !done {
+			{
 				for _, b := range fn.Blocks {
 					ret, ok := b.Instrs[len(b.Instrs)-1].(*ssa.Return)
 					if !ok {
 						continue
 					}
-					for _, r := range ret.Results {
+					for ri, r := range ret.Results {
 						if !pointerLike(r.Type()) {
 							continue
 						}
+						if _, done := e.retSharedAt[fn][ri]; done {
+							continue
+						}
 						if ok, why := e.Fresh(r); !ok {
-							e.retShared[fn] = why
+							if _, have := e.retShared[fn]; !have {
+								e.retShared[fn] = why
+							}
+							if e.retSharedAt[fn] == nil {
+								e.retSharedAt[fn] = map[int]string{}
+							}
+							e.retSharedAt[fn][ri] = why
 							changed = true
 						}
 					}
@@ -259,6 +269,18 @@ func (e *effEngine) fresh(v ssa.Value) (bool, string) {
 		return e.Fresh(x.X)
 	case *ssa.Extract:
 		if call, ok := x.Tuple.(*ssa.Call); ok {
+			// a static module callee with a per-result summary: only this result counts
+			if cal := staticCallee(&call.Call); cal != nil && inModule(cal) {
+				if _, any := e.retShared[cal]; any {
+					if why, sh := e.retSharedAt[cal][x.Index]; sh {
+						return false, "result of " + FuncName(cal) + " (" + why + ")"
+					}
+					if !e.scope[cal] {
+						return true, "result of " + FuncName(cal)
+					}
+					return true, "fresh result #" + fmt.Sprint(x.Index) + " of " + FuncName(cal)
+				}
+			}
 			return e.callFresh(call)
 		}
 		if ta, ok := x.Tuple.(*ssa.TypeAssert); ok {
